@@ -130,8 +130,35 @@ class CloseExplore(Explore):
         return label.split(":")[0]
 
 
+# ---- full stack: close() of a wormhole on which dilate() was called (Terminator waits for the Dilator), also against a peer that cannot dilate
+from harness import fullstack as FS  # noqa: E402
+
+FS_CONFIGS = {
+    "fs-dilating-close-anywhere": dict(app=True),
+    "fs-dilating-old-peer": dict(app=True, old_peer=True),
+}
+
+
+class FClose(FS.FExplore):
+    configs = FS_CONFIGS
+
+    def final_phase(self, sim):
+        did = False
+        for a in list(sim.enabled()):
+            if a[0] == "stop" and a in sim.enabled():
+                sim.do(a)
+                did = True
+        return did
+
+    def violations(self, sim, when):
+        return CloseExplore.violations(self, sim, when)
+
+    def classify(self, label):
+        return label.split(":")[0]
+
+
 def jobs(tier):
-    return make_jobs(CloseExplore, tier, 2, 3) + make_random_jobs(CloseExplore, tier)
+    return make_jobs(CloseExplore, tier, 2, 3) + make_random_jobs(CloseExplore, tier) + FS.make_jobs(FClose, tier, 2, 3)
 
 
 ASSUMPTIONS = [
